@@ -17,6 +17,7 @@ package alert
 
 // The ordering the property states: level descending, then id ascending.
 //@ func (sortedStates).Less
+//@   opt strings=seq
 //@   props C09 C05
 //@   requires 0 <= i && i < len(e) && 0 <= j && j < len(e)
 //@   requires noNil(e)
